@@ -2,7 +2,7 @@ use crate::{
     context::{create_indent_trivia, create_newline_trivia, Context, FormatNode},
     fmt_symbol,
     formatters::{
-        expression::{format_expression, hang_expression, is_brackets_string},
+        expression::{format_expression, hang_expression, starts_with_brackets_string},
         functions::should_collapse_function_body,
         general::{
             format_contained_span, format_end_token, format_token, format_token_reference,
@@ -153,7 +153,8 @@ fn format_field(
             trailing_trivia = value.trailing_comments_search(CommentSearch::Single);
             let brackets = format_contained_span(ctx, brackets, shape);
 
-            let space_brackets = is_brackets_string(key);
+            let space_brackets =
+                starts_with_brackets_string(&format_expression(ctx, key, shape + 2));
             let key = if space_brackets {
                 format_expression(ctx, key, shape + 2) // 2 = "[ "
                     .update_leading_trivia(FormatTriviaType::Append(vec![Token::new(
